@@ -40,6 +40,7 @@ type Obligation struct {
 	Time    float64
 	Model   string
 	Output  string
+	Splits  []string // reach conditions of the paths merged most recently before the obligation (their disjunction is implied by the obligation's reach): case-split fallback
 	Inputs  map[string]string // names of input consts -> description (for replay)
 }
 
@@ -107,6 +108,7 @@ type State struct {
 	comps  map[string]Term
 	epoch  string
 	defers []deferred
+	splits []Term // reach conditions merged at the last join on the way here
 }
 
 func (s *State) clone() *State {
@@ -118,6 +120,7 @@ func (s *State) clone() *State {
 		n.comps[k] = v
 	}
 	n.defers = append([]deferred(nil), s.defers...)
+	n.splits = s.splits
 	return n
 }
 
@@ -135,6 +138,7 @@ type FX struct {
 	fn     *ssa.Function
 	name   string
 	c      *Contract
+	topFrame *frame
 	items  []item
 	ctr    int
 	obs    []*Obligation
@@ -238,6 +242,11 @@ func (fx *FX) oblige(st *State, kind, label, clause string, goal Term, pos token
 	}
 	if len(ob.Props) == 0 && fx.c != nil {
 		ob.Props = fx.c.Props
+	}
+	if n := len(st.splits); n >= 2 && n <= 24 && kind != "cover" {
+		for _, sp := range st.splits {
+			ob.Splits = append(ob.Splits, sp.S)
+		}
 	}
 	fx.items = append(fx.items, item{kind: "oblig", ob: ob, reach: st.reach, goal: goal})
 	fx.obs = append(fx.obs, ob)
@@ -399,6 +408,7 @@ func (fx *FX) merge(label string, ins []*State) *State {
 	}
 	out := &State{cells: map[*ssa.Alloc]Term{}, comps: map[string]Term{}}
 	out.reach = fx.define("reach_"+label, Or(rs...))
+	out.splits = rs
 	out.epoch = ins[0].epoch
 	sameEpoch := true
 	for _, s := range ins {
